@@ -18,9 +18,10 @@ import Mhd.Proofs.LoopEpoll
 import Mhd.Proofs.LoopTpc
 import Mhd.Proofs.LoopConnSM
 import Mhd.Proofs.LoopReset
+import Mhd.Proofs.LoopConnSMLaws
 
 namespace Mhd.C06
-open Mhd.Loop Mhd.Gen.Loop
+open Mhd.Loop Mhd.Gen.Loop Mhd.Gen.ConnState
 
 variable {W : Type}
 
@@ -610,5 +611,100 @@ theorem connsm_wait_class_in_table {σ : Type} (c : Mhd.ConnSM.Conn σ) :
 /-- non-vacuity: every class of the table is inhabited by a state of the C05 model -/
 example : Mhd.Gen.ConnState.CState.headersSending.toNat ∈ writeStates ∧ Mhd.Gen.ConnState.CState.init.toNat ∈ readStates ∧
     Mhd.Gen.ConnState.CState.fullReqReceived.toNat ∈ processStates ∧ Mhd.Gen.ConnState.CState.closed.toNat = stClosed := by decide
+
+/-! ## the concrete connection step: C05's state machine satisfies the laws
+
+  `connsmOps S` (Mhd.Model.LoopConnSM) is the `Ops` built from C05's model of MHD_connection_handle_read / _write / _idle /
+  _close_ (Mhd.Model.ConnSM, its unbounded handle_idle loop); `S` scripts everything the environment decides.
+  `needsSM` reads "work that needs no network input" off the connection record. -/
+
+/-- **The safety laws hold for the concrete step** — for every application, configuration and environment script:
+    after handle_idle an active connection with pending work (a complete element buffered where one is awaited — in
+    particular a pipelined next request —, upload data the handler is working through, or a state in which MHD calls the
+    application) is in a PROCESS wait class; a closed connection is moved to the cleanup list; handle_read with a socket
+    error closes; a handler never puts a connection back into the active list. -/
+theorem connsm_satisfies_laws (S : SMScript σ) : Laws (connsmOps S) connsmNeeds := connsm_laws S
+
+/-- … and so do the wait-class table law and (without connection time-outs) "no closed connection stays active" -/
+theorem connsm_satisfies_law_table (S : SMScript σ) : LawTable (connsmOps S) := connsm_law_table S
+theorem connsm_satisfies_law_open (S : SMScript σ) (hto : ∀ id k, (S.idleEnv id k).timedOut = false) :
+    LawOpen (connsmOps S) := connsm_law_open S hto
+
+/-- **No lost wake-up, select / poll loop, with C05's connection state machine as the step** (no assumption left about
+    the step): in every reachable quiescent state no active connection has work that needs no input … -/
+theorem no_lost_wakeup_connsm (S : SMScript σ) {poll : Bool} {d : Daemon (SMConn σ)}
+    (h : Reach (connsmOps S) connsmNeeds poll d) (rdy : Ready) (q : Quiescent d rdy) :
+    ∀ c ∈ d.conns, needsSM c.loc.w = false ∧ ¬ (c.loc.eli.hasRead = true ∧ rdyR rdy c.id = true) ∧
+      ¬ (c.loc.eli.isWrite = true ∧ rdyW rdy c.id = true) :=
+  no_lost_wakeup (connsm_laws S) h rdy q
+
+/-- … spelled out for the receiving states: no active connection waits for the client while a complete request line,
+    header block or trailer (e.g. of a pipelined request) sits in its read buffer. -/
+theorem no_unexamined_input_when_quiescent (S : SMScript σ) {poll : Bool} {d : Daemon (SMConn σ)}
+    (h : Reach (connsmOps S) connsmNeeds poll d) (rdy : Ready) (q : Quiescent d rdy) :
+    ∀ c ∈ d.conns, c.loc.w.fault = false → Mhd.ConnSM.ReadState c.loc.w.state → Mhd.ConnSM.dropJunk c.loc.w.buf = [] := by
+  intro c hc hf hr
+  have hn := (no_lost_wakeup_connsm S h rdy q c hc).1
+  unfold needsSM at hn
+  rw [hf] at hn
+  rcases hr with e | e | e | e <;> simp [e] at hn <;> exact hn
+
+/-- the same for the thread-per-connection loop -/
+theorem tpc_no_lost_wakeup_connsm (S : SMScript σ) {t : TState (SMConn σ)}
+    (h : TReach (connsmOps S) connsmNeeds tpcMarksSuspend t) {t1 : TState (SMConn σ)} {b : TBlock}
+    (hb : tpcHead (connsmOps S) t = (t1, some b)) :
+    (t1.wh = .susp → b = suspendedWait) ∧
+    (t1.wh = .active → b.onItc = false ∧ (needsSM t1.c.loc.w = true → b.wait = .zero) ∧
+        (t1.c.loc.eli.hasRead = true → b.r = true) ∧ (t1.c.loc.eli.isWrite = true → b.w = true)) ∧
+    (b.wait = .forever → t1.wh ≠ .susp ∧ (t1.wh = .active → needsSM t1.c.loc.w = false)) :=
+  tpc_no_lost_wakeup (connsm_laws S) h hb
+
+/-- round post-conditions for the concrete step: wait class of every surviving connection from the table; no closed
+    connection left active (no time-outs) -/
+theorem round_wait_class_connsm (S : SMScript σ) {d : Daemon (SMConn σ)} (h : InvSP connsmNeeds d) (rdy : Ready) (poll : Bool) :
+    ∀ c ∈ (roundOf (connsmOps S) poll d rdy).conns, c.id ∈ ids d.newc ∨ TableOK c.loc :=
+  round_wait_class (connsm_law_table S) h rdy poll
+
+/-- **Progress with the concrete step**: `Laws` is discharged; the reply-side laws `ProgLaws` (monotone reply count, a
+    measure that every fair write / idle call decreases) remain the hypothesis — Mhd.Model.ConnSM has no reply counter and
+    its "not ready" answers are environment choices, so they are not yet derivable from it. -/
+theorem progress_connsm (S : SMScript σ) {awaiting : Local (SMConn σ) → Bool} {replies rank : Local (SMConn σ) → Nat}
+    (PL : ProgLaws (connsmOps S) awaiting replies rank) (poll : Bool) (p : CId)
+    (H : List (Step (SMConn σ))) (d : Daemon (SMConn σ)) (c : Conn (SMConn σ)) (hinv : InvSP connsmNeeds d) (hc : c ∈ d.conns)
+    (hid : c.id = p) (ha : awaiting c.loc = true) (hs : c.loc.eli = .process ∨ c.loc.eli = .write)
+    (hfair : FairFor (connsmOps S) connsmNeeds poll p d H) (hr : rank c.loc < nRounds H) :
+    ∃ H1 H2, H = H1 ++ H2 ∧ ∀ c' ∈ (runSteps (connsmOps S) poll d H1).conns, c'.id = p → replies c.loc < replies c'.loc :=
+  progress (connsm_laws S) PL poll p H d c hinv hc hid ha hs hfair hr
+
+/-- Non-vacuity: an application that replies at the final call; a connection with a complete GET buffered: handle_idle
+    runs it to HEADERS_SENDING / WRITE (nothing pending); with only the request line buffered it stays READ and nothing
+    is pending; a reachable daemon (one MHD_add_connection, one round in which the request is read) is quiescent
+    afterwards: the fast track of call_handlers has sent the whole reply (6 handler calls) and the kept-alive connection waits
+    for the next request. -/
+def demoApp : Mhd.ConnSM.App Unit :=
+  { uriLog := fun s => (s, none),
+    handle := fun s ci => (s, { take := ci.offered, act := if ci.site = .final then .reply { rid := 1 } true else .cont }) }
+def demoScript : SMScript Unit :=
+  { cfg := {}, app := demoApp, idleEnv := fun _ _ => {}, recv := fun _ _ => .recv [.line .ok, .headers .none true false], wr := fun _ _ => .done }
+def demoLoc (buf : List Mhd.ConnSM.Tok) : Local (SMConn Unit) :=
+  { st := stInit, eli := .read, rdReady := false, wrReady := false, bufSpace := true, w := { app := (), started := true, buf := buf } }
+
+example :
+    ((connsmOps demoScript).idle 0 0 .active (demoLoc [.line .ok, .headers .none true false])).1.st = stHeadersSending ∧
+    ((connsmOps demoScript).idle 0 0 .active (demoLoc [.line .ok, .headers .none true false])).1.eli = .write ∧
+    connsmNeeds ((connsmOps demoScript).idle 0 0 .active (demoLoc [.line .ok, .headers .none true false])).1 = false ∧
+    ((connsmOps demoScript).idle 0 0 .active (demoLoc [.line .ok])).1.eli = .read ∧
+    connsmNeeds ((connsmOps demoScript).idle 0 0 .active (demoLoc [.line .ok])).1 = false ∧
+    connsmNeeds (demoLoc [.line .ok]) = true := by decide
+
+example : ∃ d, Reach (connsmOps demoScript) connsmNeeds false d ∧ d.conns.length = 1 ∧ Quiescent d {} ∧
+    d.conns.map (fun c => (c.loc.st, c.loc.eli)) = [(stInit, .read)] ∧ d.log.length = 6 := by
+  refine ⟨_, Reach.round { r := [7] } (Reach.add { id := 7, loc := demoLoc [] } (Reach.init true)
+    ⟨by simp, by simp, by simp, by simp, rfl, rfl, rfl⟩), ?_, ?_, ?_⟩
+  · decide
+  · refine ⟨by decide, ?_, ?_⟩ <;> intro id hid
+    · rfl
+    · rfl
+  · decide
 
 end Mhd.C06
